@@ -59,8 +59,12 @@ def seeded_variants():
         if os.path.exists(vj) and os.path.exists(pf):
             with open(vj) as fh:
                 v = json.load(fh)
-            out.append(dict(id=f"seed:{name}", props=sorted(v["detected_by"]), file="(patch)", patch=pf, expect="fail",
-                            rules=v["detected_by"], what=v.get("summary", name)))
+            if v.get("expect") == "pass":
+                # an independently written behaviour-preserving refactoring: no check may change its verdict
+                out.append(dict(id=f"twin:{name}", props=list(v["props"]), file="(patch)", patch=pf, expect="pass", rules={}, what=v.get("summary", name)))
+            else:
+                out.append(dict(id=f"seed:{name}", props=sorted(v["detected_by"]), file="(patch)", patch=pf, expect="fail",
+                                rules=v["detected_by"], what=v.get("summary", name)))
     return out
 
 
